@@ -222,6 +222,9 @@ func loadKnown(path string) []KnownFinding {
 	return out
 }
 
+// flakyCases: per property, how to turn an unreproducible in-process failure into a history case.
+var flakyCases = map[string]func() Case{"C11": flakyC11}
+
 // recTB lets rapid.Check report into the worker instead of failing the process.
 type recTB struct {
 	failed bool
@@ -288,6 +291,19 @@ func (wk *Worker) explore(gen func(t *rapid.T) Case) {
 			}
 			for _, m := range tb.msgs {
 				if strings.Contains(m, "flaky test") {
+					// the same case gave two different outcomes in this process. Where the property itself
+					// says "the same on every run" and a history case exists, the history is the replay unit
+					// (check replays it in a fresh process and reports exit 2 if it does not reproduce).
+					if mk := flakyCases[wk.Prop]; mk != nil {
+						hc := mk()
+						raw, _ := json.Marshal(hc)
+						if fs := hc.Eval(wk.ob); len(fs) > 0 {
+							wk.lastViol = &Violation{Property: wk.Prop, Sig: fs[0].Sig, Msg: fs[0].Msg, Case: raw, Seed: rs}
+						} else {
+							wk.lastViol = &Violation{Property: wk.Prop, Sig: wk.Prop + " outcome-depends-on-earlier-resolutions", Msg: "a case failed and then passed when evaluated again in the same process: " + wk.lastViol.Msg, Case: raw, Seed: rs}
+						}
+						break
+					}
 					panic(harnessFault{"rapid could not reproduce a failure (nondeterminism in the harness): " + m})
 				}
 			}
@@ -366,7 +382,14 @@ func (wk *Worker) finish() int {
 			b, _ := json.MarshalIndent(o.Violation, "", " ")
 			if err := os.WriteFile(p, b, 0o644); err != nil {
 				o.Fault = err.Error()
-				code = 2
+				code = exitHarnessFault
+			}
+			// where outcomes may depend on earlier operations of the process, the recent history is kept
+			// next to the case: check falls back to it when the case alone does not reproduce
+			if mk := flakyCases[wk.Prop]; mk != nil {
+				raw, _ := json.Marshal(mk())
+				hb, _ := json.MarshalIndent(Violation{Property: wk.Prop, Sig: wk.Prop + " outcome-depends-on-earlier-resolutions", Msg: "history of the worker that reported: " + o.Violation.Msg, Case: raw, Seed: o.Violation.Seed}, "", " ")
+				os.WriteFile(p+".history.json", hb, 0o644)
 			}
 		}
 	}
@@ -374,7 +397,7 @@ func (wk *Worker) finish() int {
 		b, _ := json.Marshal(o)
 		if err := os.WriteFile(wk.OutPath, b, 0o644); err != nil {
 			fmt.Fprintln(os.Stderr, "hrsim: cannot write worker output:", err)
-			return 2
+			return exitHarnessFault
 		}
 	}
 	return code
